@@ -252,3 +252,12 @@ Lemma apparent_heading_spec : forall (pos b : Rvec) (h al : Rang) (rho : R), uni
 Proof. intros pos b h al rho Hh Ha Hd ah. unfold ah, appheading_res, appheading_dot, forward.
   rewrite heading_convention_alg, Hd. da h; da al. unfold unita in *. revert Hh Ha. unfall. intros Hh Ha.
   split; nsatz. Qed.
+
+Lemma hyps_satisfiable :
+  unita (3/5, 4/5) /\ unitq (1/2, 1/2, 1/2, 1/2) /\
+  (exists (p q : Rvec) (th ph : Rang) (rho : R), unita th /\ unita ph /\ rho <> 0 /\
+     vsub Ro p q = vscale Ro rho (sph_dir Ro th ph)).
+Proof. split; [unfold unita; unf; field|]. split; [unfold unitq; unf; field|].
+  exists (0, 2, 0), (0, 0, 0), (1, 0), (1, 0), 2.
+  split; [unfold unita; unf; ring|]. split; [unfold unita; unf; ring|]. split; [lra|].
+  unfall. apply vec_eq; ring. Qed.
